@@ -3,7 +3,7 @@
     correspondence run of checks/C42.py). *)
 From Coq Require Import List ZArith Bool Arith.
 Import ListNotations.
-Require Import C42_Model C42_Proofs C42_Final C42_Theorems.
+Require Import C42_Model C42_Proofs C42_Final C42_Fuel C42_Base C42_Theorems.
 
 Theorem C42_each_body_mobilized_once fuel inp g : generate fuel inp = Ok g ->
   g_nb g = S (length (in_bodies inp)) /\
@@ -67,6 +67,10 @@ Theorem C42_no_terminal_massless_mobile fuel inp g : generate fuel inp = Ok g ->
 Proof. exact (no_terminal_massless_mobile fuel inp g). Qed.
 Print Assumptions C42_no_terminal_massless_mobile.
 
+Theorem C42_fuel_suffices fuel inp : length (in_bodies inp) + 2 <= fuel -> generate fuel inp <> OutOfFuel.
+Proof. exact (fuel_suffices fuel inp). Qed.
+Print Assumptions C42_fuel_suffices.
+
 Theorem C42_must_be_base_refuted_loop_joint_only :
   exists inp g, generate (defaultFuel inp) inp = Ok g /\ ~ base_honoured inp g.
 Proof. exact (@must_be_base_refuted_loop_joint_only). Qed.
@@ -76,6 +80,19 @@ Theorem C42_must_be_base_refuted_massless_chain :
   exists inp g, generate (defaultFuel inp) inp = Ok g /\ ~ base_honoured inp g.
 Proof. exact (@must_be_base_refuted_massless_chain). Qed.
 Print Assumptions C42_must_be_base_refuted_massless_chain.
+
+Theorem C42_must_be_base_honoured fuel inp g b : generate fuel inp = Ok g -> 1 <= b < g_nb g ->
+  baseOf (allBodies inp) b = true -> base_joint_precondition inp b ->
+  exists m, In m (g_mobs g) /\ moutb m = b /\ levelOf g b = Some (mlevel m) /\
+    ((mlevel m = 1 /\ minb m = 0) \/ Z.gtb (massOf (allBodies inp) (minb m)) 0 = false).
+Proof. exact (must_be_base_honoured fuel inp g b). Qed.
+Print Assumptions C42_must_be_base_honoured.
+
+Theorem C42_must_be_base_honoured_level1 fuel inp g b : generate fuel inp = Ok g -> 1 <= b < g_nb g ->
+  baseOf (allBodies inp) b = true -> base_joint_precondition inp b -> no_massless_neighbour inp b ->
+  levelOf g b = Some 1.
+Proof. exact (must_be_base_honoured_level1 fuel inp g b). Qed.
+Print Assumptions C42_must_be_base_honoured_level1.
 
 Theorem C42_fourbar_ok : exists g, generate (defaultFuel fourbar) fourbar = Ok g /\
   length (g_mobs g) = 4 /\ length (g_slaves g) = 1 /\ length (g_cons g) = 1.
@@ -87,4 +104,13 @@ Theorem C42_massless_link_ok : exists g m, generate (defaultFuel massless_link) 
   0 < dofOf (allTypes massless_link) (nth (mjoint m) (g_joints g) jd).
 Proof. exact (@massless_link_ok). Qed.
 Print Assumptions C42_massless_link_ok.
+
+Theorem C42_default_fuel_suffices inp : generate (defaultFuel inp) inp <> OutOfFuel.
+Proof. exact (default_fuel_suffices inp). Qed.
+Print Assumptions C42_default_fuel_suffices.
+
+Theorem C42_base_ok_input_hyps : (exists g, generate (defaultFuel base_ok_input) base_ok_input = Ok g) /\
+  baseOf (allBodies base_ok_input) 2 = true /\ base_joint_precondition base_ok_input 2 /\ no_massless_neighbour base_ok_input 2.
+Proof. exact (@base_ok_input_hyps). Qed.
+Print Assumptions C42_base_ok_input_hyps.
 
